@@ -32,6 +32,7 @@ class Verifier:
         self.math_used = set()
         self.assumed = set()
         self.lemmas_used = set()
+        self.bridges_used = set()
         self.calls = {}
         self.global_writes = []
         self.results = {}       # function display name -> dict
@@ -165,9 +166,13 @@ class Verifier:
                 out.append(f)
         return out
 
-    def verify_function(self, f, only_partition=None):
-        c = self.contract_for(f)
-        name = self.display_name(f)
+    def variants_for(self, f):
+        pkg, key = S.func_key(f)
+        return self.contracts.variants.get((pkg, key), [])
+
+    def verify_function(self, f, only_partition=None, contract=None):
+        c = contract or self.contract_for(f)
+        name = self.display_name(f) + ("[%s]" % c.variant if c.variant else "")
         rec = {"name": name, "mode": c.mode, "obligations": [], "partitions": [], "error": None, "trusted": c.trusted,
                "paths": 0, "pos": f.get("pos", "")}
         self.results[name] = rec
@@ -180,7 +185,7 @@ class Verifier:
                 rec["error"] = "no Go body and no assembly body in this build configuration"
                 return rec
             rec["body"] = "field/fe_amd64.s"
-        if c.mode not in ("lia", "bv", "ring"):
+        if c.mode not in ("lia", "bv", "ring", "group"):
             rec["error"] = "mode %s not implemented" % c.mode
             return rec
         for part, pname in self.partitions(f, c):
@@ -188,6 +193,7 @@ class Verifier:
                 continue
             run = FuncRun(self, f, c, part, pname)
             run.asm_body = asm_body
+            run.fname = name
             try:
                 obs = run.run()
                 rec["obligations"].extend(obs)
@@ -390,4 +396,7 @@ def domain_for(mode):
     if mode == "ring":
         from .ring import RingDomain
         return RingDomain()
+    if mode == "group":
+        from .group import GroupDomain
+        return GroupDomain()
     raise Unsupported(mode)
